@@ -189,15 +189,30 @@ theorem f9_binding_witness :
     holeFree Γ t (.self km []) = false :=
   ⟨by decide, by decide, rfl, by decide, by decide⟩
 
-/-- F10 needs a struct bound to a typed map; `TypedMapType.IsValidExpression`
-demands `MapDim ≠ 0` of a reference, so at TOP level the compiler rejects it –
-but one level down, inside a struct member, `StructType.IsAssignableFrom` only
-compares dimensions… which also differ.  The hole is therefore NOT reachable
-through a binding: for every reference the shape pre-check excludes
-`map<T> ← struct`. -/
+/-- F10 (`map<T> ← struct`) cannot be hit by a plain reference at top level:
+every type class pre-checks the `(ArrayDim, MapDim)` shape of a reference, and
+`TypedMapType.IsValidExpression` demands `MapDim ≠ 0` … -/
 theorem f10_unreachable_at_top (Γ : Env) (d : Ty) (e : Exp) (n : Bytes) (fs : Fields)
     (hr : refType Γ e = some (.struct n fs)) : refOk Γ (.tmap d) e = false := by
   simp [refOk, hr, shapeOk, dims]
+
+/-- … but it IS reachable one array level down (`ArrayType.IsAssignableFrom`
+only compares the array dimension and the element types) and through `split`
+(`isValidSplit` makes no shape check): `map<int>[] x = self.s` with
+`self.s : A[]`, `struct A(int a)`, is accepted; the conforming input
+`[{"a": 1, "x": "s"}]` (undeclared members are tolerated) is delivered with the
+extra member and does not validate as `map<int>[]`.  (negative witness for the
+full soundness statement) -/
+theorem f10_binding_witness :
+    let Γ : Env := { self := [(kx, .arr tA)], calls := [] }
+    let v : J := .arr [.obj [(ka, .num (.int 1)), (kx, .str kx)]]
+    let ρ : Store := { self := [(kx, v)], calls := [] }
+    let t : Ty := .arr (.tmap (.base .int))
+    validExp Γ t (.self kx []) = true ∧
+    validBind Γ (.tmap (.base .int)) (.split (.self kx [])) = true ∧
+    valid (.arr tA) v = true ∧
+    valid t (filter t v).1 = false ∧
+    holeFree Γ t (.self kx []) = false := by decide
 
 /-- `x = CALL` standing for `x = CALL.default` (`rewriteToDefaultOutput`) is
 sound in the same sense. -/
